@@ -603,9 +603,17 @@ Proof.
     apply (H3 t Hb). now apply (all_teids_filter_incl p ss).
 Qed.
 
-Lemma ev_step_inv retries access draws w e : WInv w -> WInv (fst (ev_step retries access draws w e)).
+Lemma ev_step_inv retries access draws w e : ev_claims e = false ->
+  WInv w -> WInv (fst (ev_step retries access draws w e)).
 Proof.
-  intros (Hg & Hk & H0 & Hn & Hi). destruct e as [k aok dok ps|k seid]; cbn [ev_step].
+  intros Hok (Hg & Hk & H0 & Hn & Hi). destruct e as [k aok dok ps|k seid|k seid ch teid]; cbn [ev_step].
+  3:{ cbn [ev_claims] in Hok. cbn [fst].
+      assert (E : map (fun s => if is_sess k seid s && ch && negb (teid =? 0)
+                                then Sess (s_conn s) (s_seid s) (s_teids s ++ [teid]) else s) (w_sess w) = w_sess w).
+      { rewrite <- (map_id (w_sess w)) at 2. apply map_ext. intros s.
+        rewrite <- andb_assoc, Hok, andb_false_r. reflexivity. }
+      unfold WInv. cbn [w_gen w_sess]. rewrite E.
+      split; [exact Hg|split; [exact Hk|split; [exact H0|split; [exact Hn|exact Hi]]]]. }
   - destruct (establish retries access (draws k) aok dok ps (store_of k (w_sess w)) (w_drawn w k) (w_gen w))
       as [[r j] g'] eqn:Ee.
     cbn [fst]. destruct r as [l cr batch|cause b]; unfold WInv; cbn [w_gen w_sess].
@@ -642,10 +650,36 @@ Proof.
   now destruct (ev_run retries access draws w1 r).
 Qed.
 
-Lemma ev_run_inv retries access draws es : forall w, WInv w -> WInv (fst (ev_run retries access draws w es)).
+Lemma ev_run_inv retries access draws es : forall w, existsb ev_claims es = false ->
+  WInv w -> WInv (fst (ev_run retries access draws w es)).
 Proof.
-  induction es as [|e r IH]; intros w H; [exact H|]. rewrite ev_run_cons. cbn [fst].
-  apply IH. now apply ev_step_inv.
+  induction es as [|e r IH]; intros w Hok H; [exact H|]. rewrite ev_run_cons. cbn [fst].
+  cbn [existsb] in Hok. apply orb_false_elim in Hok. destruct Hok as (Hok1 & Hok2).
+  apply IH; [exact Hok2|]. now apply ev_step_inv.
+Qed.
+
+(* the unguarded statement is false: session 22 claims (CHOOSE flag plus an explicit F-TEID in one
+   PDI) the TEID 1 that was chosen for session 11, and releases it when it is deleted *)
+Lemma ev_run_inv_refuted : exists retries access draws es w,
+  WInv w /\ ~ WInv (fst (ev_run retries access draws w es)).
+Proof.
+  exists MAX_RETRIES, 0, (fun _ _ => 0), [EvMod 0 22 true 1; EvDel 0 22],
+         (World [Sess 0 22 []; Sess 0 11 [1]] (fun _ => 0%nat) (Gen 1 [0])).
+  split.
+  - unfold WInv, wf, all_teids, live_ids, skey.
+    cbn [w_gen w_sess offset used map concat app s_conn s_seid s_teids].
+    split; [split; [unfold MAXV; lia|split]|split; [|split; [|split]]].
+    + constructor; [intros []|constructor].
+    + constructor; [unfold MAXV; lia|constructor].
+    + constructor; [intros [E|[]]; discriminate E|constructor; [intros []|constructor]].
+    + constructor; [discriminate|constructor; [discriminate|constructor]].
+    + constructor; [intros []|constructor].
+    + intros a Ha. exact Ha.
+  - intros (_ & _ & _ & _ & Hi).
+    assert (E : fst (ev_run MAX_RETRIES 0 (fun _ _ => 0) (World [Sess 0 22 []; Sess 0 11 [1]] (fun _ => 0%nat) (Gen 1 [0]))
+                     [EvMod 0 22 true 1; EvDel 0 22]) =
+                World [Sess 0 11 [1]] (fun _ => 0%nat) (Gen 1 [])) by (vm_compute; reflexivity).
+    rewrite E in Hi. specialize (Hi 1 (or_introl eq_refl)). exact Hi.
 Qed.
 
 (* ------------------------------------------------------------------ statements used by Props/C07.v *)
